@@ -332,6 +332,72 @@ fn batch_family(ctx: &mut Ctx, n: u64) {
     }
 }
 
+/// Back-pressure: a response larger than the socket buffer is pushed with `flush_outgoing_writes` to a client
+/// that is not reading (the write is cut short), then more answers follow on the same connection and on others.
+/// Whatever the server decides to do with the cut connection, every byte the client finally reads must still
+/// belong to a well-formed response to one of its requests, in order.
+fn flush_family(ctx: &mut Ctx, n: u64) {
+    let mut rng = ctx.rng.fork(0xC07F1);
+    let mut p = P07::new(4, 19);
+    p.batches = true;
+    for _ in 0..n {
+        ctx.begin();
+        ctx.rep.evaluations += 1;
+        ctx.rep.count("histories_flush_family");
+        let k = 1 + rng.below(3);
+        let mut acts = Vec::new();
+        for c in 0..k {
+            acts.push(Act::Connect(c));
+        }
+        acts.push(Act::Poll);
+        acts.push(Act::Poll);
+        for c in 0..k {
+            acts.push(Act::Send(c, if rng.chance(1, 2) { Piece::Two } else { Piece::Many }));
+        }
+        for _ in 0..(k + 2) {
+            acts.push(Act::Poll);
+        }
+        // one large answer, pushed out by flush (or by polling) while nobody reads
+        acts.push(Act::Respond(0, Size::Large));
+        match rng.below(3) {
+            0 => acts.push(Act::Flush),
+            1 => {
+                acts.push(Act::Poll);
+                acts.push(Act::Flush);
+            }
+            _ => {
+                acts.push(Act::Flush);
+                acts.push(Act::Flush);
+            }
+        }
+        // more answers, some for the same connection
+        for _ in 0..rng.range(1, 4) {
+            acts.push(Act::Respond(0, if rng.chance(1, 4) { Size::Medium } else { Size::Small }));
+            if rng.chance(1, 2) {
+                acts.push(Act::Flush);
+            }
+            if rng.chance(1, 2) {
+                acts.push(Act::Poll);
+            }
+        }
+        if rng.chance(1, 2) {
+            acts.push(Act::DrainSome(0));
+            acts.push(Act::Flush);
+        }
+        acts.push(Act::RespondAll(Size::Small));
+        for _ in 0..4 {
+            acts.push(Act::Poll);
+        }
+        let out = hist::run_history(ctx, &mut p, &acts, true, false);
+        if let Some((k, d)) = out.violation {
+            ctx.rep.violation(&format!("C07:{}", k), d, hist::history_json(&acts, vec![]));
+            if ctx.rep.violations_total > 30 {
+                break;
+            }
+        }
+    }
+}
+
 pub fn run(ctx: &mut Ctx) {
     let quick = ctx.quick();
     let mut p = P07::new(2, 2);
@@ -364,6 +430,7 @@ pub fn run(ctx: &mut Ctx) {
     p.batches = true;
     hist::random_histories(ctx, &mut p, n / 2 + 1, 20, 90, "C07", &mut choose);
     batch_family(ctx, n / 2 + 1);
+    flush_family(ctx, n / 8 + 1);
     // histories around the capacity boundary (up to 13 clients): closes with requests in flight,
     // newcomers while the server is full, late answers
     let mut rng = ctx.rng.fork(0xC0710);
